@@ -788,6 +788,16 @@ func checkReentrancy(c *Ctx, res *report.Result, rule6 string, pkgs []*ssa.Packa
 						targets = append(targets, fn)
 					}
 				}
+				// a callback handed to a module callee that calls it on this goroutine (directly, in a defer, or through
+				// a further module callee - not with `go`) runs inside the section too
+				if cal := flow.StaticCallee(call.Common()); cal != nil && cal.Package() != nil && strings.HasPrefix(cal.Package().Pkg.Path(), modPath) {
+					for i, a := range call.Common().Args {
+						fn, _ := closureFn(flow.ResolveLoad(a))
+						if fn != nil && i < len(cal.Params) && paramCalledSync(cal, i, 0) {
+							targets = append(targets, fn)
+						}
+					}
+				}
 				for _, cal := range targets {
 					if cal.Package() == nil || !strings.HasPrefix(cal.Package().Pkg.Path(), modPath) {
 						continue
@@ -1025,4 +1035,65 @@ func sigKey(t types.Type) string {
 	}
 	b.WriteString(")")
 	return b.String()
+}
+
+// paramCalledSync: fn can call its i-th parameter (a function value) on the calling goroutine: a call or deferred
+// call of the parameter, or handing it to a module callee that does (three levels); `go` does not count.
+func paramCalledSync(fn *ssa.Function, i int, depth int) bool {
+	if depth > 3 || i >= len(fn.Params) || len(fn.Blocks) == 0 {
+		return false
+	}
+	p := ssa.Value(fn.Params[i])
+	is := func(v ssa.Value) bool { return v == p || flow.ResolveLoad(v) == p }
+	for _, f := range append([]*ssa.Function{fn}, flow.AnonFuncsDeep(fn)...) {
+		// closures of fn that are only started with `go` run elsewhere
+		if f != fn {
+			onlyGo := true
+			for _, b := range f.Parent().Blocks {
+				for _, ins := range b.Instrs {
+					if ci, ok := ins.(ssa.CallInstruction); ok {
+						if cl, _ := closureFn(ci.Common().Value); cl == f {
+							if _, isGo := ins.(*ssa.Go); !isGo {
+								onlyGo = false
+							}
+						}
+					}
+				}
+			}
+			if onlyGo {
+				continue
+			}
+		}
+		for _, b := range f.Blocks {
+			for _, ins := range b.Instrs {
+				ci, ok := ins.(ssa.CallInstruction)
+				if !ok {
+					continue
+				}
+				if _, isGo := ins.(*ssa.Go); isGo {
+					continue
+				}
+				cc := ci.Common()
+				v := cc.Value
+				if fv, isFV := v.(*ssa.FreeVar); isFV {
+					v = freeVarBinding(fv)
+				}
+				if !cc.IsInvoke() && is(v) {
+					return true
+				}
+				if sc := flow.StaticCallee(cc); sc != nil && sc.Package() != nil && strings.HasPrefix(sc.Package().Pkg.Path(), modPath) {
+					for j, a := range cc.Args {
+						av := a
+						if fv, isFV := av.(*ssa.FreeVar); isFV {
+							av = freeVarBinding(fv)
+						}
+						if is(av) && paramCalledSync(sc, j, depth+1) {
+							return true
+						}
+					}
+				}
+			}
+		}
+	}
+	return false
 }
